@@ -1,4 +1,5 @@
 """Helpers shared by rule packs."""
+import re
 from sa import atoms, mir, whomay
 from sa.mir import render, render_guard
 
@@ -826,7 +827,66 @@ def origin_read(b, op):
     return None
 
 
-def at_call(ctx, call_term):
+def _paths(ty):
+    return re.findall(r"[A-Za-z_][A-Za-z0-9_]*(?:::[A-Za-z_][A-Za-z0-9_]*)+", ty)
+
+
+def typed_into(ctx, target_adt, src_ty):
+    """`value.into()` into `target_adt` decided by TYPE: the derived `From<Src>` impl of the target whose source type matches
+    `src_ty` (derived From impls wrap the value in the one variant that carries that type).  Returns the impl's `from` def or None"""
+    cands = []
+    want = _paths(src_ty)
+    for imp in ctx.facts.impls:
+        if imp.get("self_adt") != target_adt or imp.get("trait") != "std::convert::From" or not imp.get("derived"):
+            continue
+        m = re.search(r" as std::convert::From<(.*)>>$", imp.get("trait_ref", ""))
+        if not m:
+            continue
+        have = _paths(m.group(1))
+        # how many leading type paths of the impl's source type occur, in order, in the concrete type (generic parameters carry no
+        # path; defaulted type arguments are elided in the concrete type's printed form)
+        k, it = 0, iter(want)
+        for h in have:
+            if any(h == w for w in it):
+                k += 1
+            else:
+                break
+        if have and want and have[0] == want[0] and (k == len(have) or k == len(want)):
+            cands.append((k, imp["items"][0]["def"]))
+    cands.sort(reverse=True)
+    if not cands or (len(cands) > 1 and cands[0][0] == cands[1][0]):
+        return None         # no match, or not unique: undecided
+    return cands[0][1]
+
+
+def resolve_event_ctor(ctx, body, term):
+    """`AccountEvent::new(exchange, payload)` read as the record it builds: {exchange, kind: <the variant chosen by the payload's
+    type through the derived From impl>(payload)} - so the constructor call and the struct literal are the same term"""
+    new_ok = None
+
+    def f(q):
+        nonlocal new_ok
+        if q[0] == "call" and mir.short(q[1]) == "AccountEvent::new" and len(q[2]) == 2 and len(q) > 3 and q[3] is not None:
+            if new_ok is None:
+                nb = ctx.ibody(q[1])
+                new_ok = render(nb.return_term()) == "AccountEvent::AccountEvent{exchange: exchange, kind: Into::into(kind)}"
+            try:
+                k_ty = body.blocks[q[3]]["term"]["f"]["args"][-1]
+            except Exception:
+                return None
+            imp = typed_into(ctx, "barter_execution::AccountEventKind", k_ty) if new_ok else None
+            if imp is None:
+                return None
+            fr = ctx.ibody(imp).return_term()
+            if fr[0] != "agg" or len(fr[3]) != 1:
+                return None
+            return ("agg", "adt:barter_execution::AccountEvent::AccountEvent", ("exchange", "kind"),
+                    (mir.subst(q[2][0], f), ("agg", fr[1], fr[2], (mir.subst(q[2][1], f),))))
+        return None
+    return mir.subst(term, f)
+
+
+def at_call(ctx, call_term, norm=None):
     """the return cases of a workspace callee AT one of its call sites: [(guard, term)] in the CALLER's vocabulary (the callee's
     parameters replaced by the arguments of this call).  Whether a value reaches the callee through `self` or as an explicit
     argument (`self.helper(x)` vs `Self::helper(&self.field, x)`) makes no difference in this view."""
@@ -836,6 +896,8 @@ def at_call(ctx, call_term):
     cb = ctx.ibody(callee)
     out = []
     for g, t, bi in cb.expanded_cases(0):
+        if norm is not None:
+            t = norm(cb, t)       # (normalisations that need the callee's own call-site types run before the arguments are put in)
         g2 = frozenset(frozenset((a[0], mir.subst_params(a[1], call_term[2])) + tuple(a[2:]) for a in conj) for conj in g)
         out.append((g2, mir.subst_params(t, call_term[2])))
     return out
